@@ -13,6 +13,9 @@ type Sub struct {
 	X    int
 	Name string
 	Tags []string
+	// a function-valued member: `Sub.Twice(3)`, `P?.Twice(I)` compile to method calls (OpMethod / OpMethodNilSafe,
+	// FetchFn / FetchFnNil on a NON-nil receiver)
+	Twice func(int) int
 }
 
 type CallLog struct{ Calls []string }
@@ -106,6 +109,10 @@ func NewEnv(seed int, pick func(n int) int) *Env {
 	e.MS = []map[string]string{{}, {"a": "x", "b": ""}, {"abc": "lo", "xyz": "a"}}[pick(3)]
 	e.Sub = Sub{X: scal[pick(len(scal))], Name: "sub", Tags: []string{"t1", "t2"}}
 	e.P = &Sub{X: 42, Name: "ptr", Tags: nil}
+	twice := func(x int) int { log.add("Twice", x); return 2 * x }
+	e.Sub.Twice = twice
+	e.P.Twice = twice
+	registerFn("Twice", twice)
 	e.Id = func(x interface{}) interface{} { log.add("Id", x); return x }
 	e.Inc = func(x int) int { log.add("Inc", x); return x + 1 }
 	e.Add = func(a, b int) int { log.add("Add", a, b); return a + b }
